@@ -57,6 +57,10 @@ const (
 	where key = ? and type = 2 and (etime is null or etime > ?)
 	returning id, len`
 
+	sqlInsertKey = `
+	select id from rkey
+	where key = ? and type = 2 and (etime is null or etime > ?)`
+
 	sqlInsertAfter = `
 	with elprev as (
 		select min(pos) as pos from rlist
@@ -508,10 +512,9 @@ func (tx *Tx) insert(key string, pivot, elem any, query string) (int, error) {
 		return 0, err
 	}
 
-	// Update the key.
+	// Find the key.
 	var keyID, n int
-	args := []any{now, key, now}
-	err = tx.tx.QueryRow(sqlInsert, args...).Scan(&keyID, &n)
+	err = tx.tx.QueryRow(sqlInsertKey, key, now).Scan(&keyID)
 	if err == sql.ErrNoRows {
 		return 0, core.ErrNotFound
 	}
@@ -519,13 +522,25 @@ func (tx *Tx) insert(key string, pivot, elem any, query string) (int, error) {
 		return 0, err
 	}
 
-	// Insert the element.
-	args = []any{keyID, pivotb, keyID, keyID, elemb, keyID}
-	_, err = tx.tx.Exec(query, args...)
+	// Insert the element. Nothing has been changed so far,
+	// so a missing pivot leaves the list as it was.
+	args := []any{keyID, pivotb, keyID, keyID, elemb, keyID}
+	res, err := tx.tx.Exec(query, args...)
 	if err != nil {
 		if sqlx.ConstraintFailed(err, "NOT NULL", "rlist.pos") {
 			return -1, core.ErrNotFound
 		}
+		return 0, err
+	}
+	if count, _ := res.RowsAffected(); count == 0 {
+		// The list is empty, so there is no pivot.
+		return -1, core.ErrNotFound
+	}
+
+	// Update the key.
+	args = []any{now, key, now}
+	err = tx.tx.QueryRow(sqlInsert, args...).Scan(&keyID, &n)
+	if err != nil {
 		return 0, err
 	}
 
